@@ -15,6 +15,10 @@ TLA_CP = "/opt/veriftools/tla/tla2tools.jar:/opt/veriftools/tla/CommunityModules
 NCPU = os.cpu_count() or 4
 
 
+import threading
+_LOCK = threading.Lock()
+
+
 class InfraError(Exception):
     pass
 
@@ -167,8 +171,10 @@ class Check:
         defines: {name: TLA text} -> written into a generated MC wrapper is NOT done here; use cfg CONSTANTS.
         """
         specdir = specdir or os.path.join(VERIF, "spec")
-        self._replay_n += 1
-        wd = os.path.join(self.scratch, "tlc-%s-%d" % (tag or module, self._replay_n))
+        with _LOCK:
+            self._replay_n += 1
+            nrun = self._replay_n
+        wd = os.path.join(self.scratch, "tlc-%s-%d" % (tag or module, nrun))
         shutil.copytree(specdir, wd, ignore=shutil.ignore_patterns("states", "*.out", ".tlacache"))
         for name, src in (files or {}).items():
             dst = os.path.join(wd, name)
@@ -226,17 +232,25 @@ class Check:
         return r
 
     def validate_traces(self, module, cfg, traces, specdir=None, timeout=900, dfs=False, chunk=200,
-                        trace_file="trace.ndjson", workers=1, extra_files=None):
+                        trace_file="trace.ndjson", workers=1, extra_files=None, parallel=0):
         """Trace validation.  traces: list of (name, [event dict,...]).  Traces are concatenated,
         each preceded by a {"ev":"Reset"} line (consumed by the trace spec's TraceReset action).
         The trace spec must define POSTCONDITION that prints <<"HWM", n>> = number of lines consumed
         and is TRUE iff all lines were consumed.
         Returns list of rejections: dict(trace=name, index=i, event=ev, prev=ev, events=[...])."""
         rejections = []
-        for off in range(0, len(traces), chunk):
-            part = traces[off:off + chunk]
-            rejections += self._validate_chunk(module, cfg, part, specdir, timeout, dfs, trace_file, workers,
-                                               extra_files)
+        parts = [traces[off:off + chunk] for off in range(0, len(traces), chunk)]
+        if parallel and len(parts) > 1:
+            import concurrent.futures
+            with concurrent.futures.ThreadPoolExecutor(max_workers=parallel) as ex:
+                futs = [ex.submit(self._validate_chunk, module, cfg, part, specdir, timeout, dfs, trace_file, workers,
+                                  extra_files) for part in parts]
+                for f in futs:
+                    rejections += f.result()
+        else:
+            for part in parts:
+                rejections += self._validate_chunk(module, cfg, part, specdir, timeout, dfs, trace_file, workers,
+                                                   extra_files)
         return rejections
 
     def _validate_chunk(self, module, cfg, part, specdir, timeout, dfs, trace_file, workers, extra_files):
@@ -290,6 +304,9 @@ class Check:
     def sample(self, s):
         if len(self.cov["samples"]) < 5:
             self.cov["samples"].append(s)
+
+    def is_known(self, signature):
+        return any(k.get("status", "known") == "known" and re.fullmatch(k["signature"], signature) for k in self._known)
 
     def report(self, signature, what, replay):
         """A real-code behaviour contradicting the property.  signature: stable string identifying the
